@@ -526,6 +526,89 @@ func eventTypesCase() (int, *drv.Violation) {
 	return t.steps, nil
 }
 
+// ---------------------------------------------------------------- many observers on one event type
+
+// manyObserversCase: n observers on one event type; the observers at the given positions are unregistered;
+// one event must reach exactly the others.
+func manyObserversCase(n int, remove []int) (int, *drv.Violation) {
+	t := &thWorld{w: ecs.NewWorld(2), what: fmt.Sprintf("%d observers on one event type, unregistering positions %v", n, remove)}
+	world := t.w
+	fired := make([]int, n)
+	obs := make([]*ecs.Observer, n)
+	for i := 0; i < n; i++ {
+		i := i
+		o := ecs.Observe(ecs.OnCreateEntity).Do(func(ecs.Entity) { fired[i]++ })
+		if i%3 == 1 {
+			o = o.With(ecs.C[ct.CP]())
+		}
+		obs[i] = o.Register(world)
+	}
+	gone := map[int]bool{}
+	mp := ecs.NewMap1[ct.CP](world)
+	step := func(when string) *drv.Violation {
+		t.steps++
+		for i := range fired {
+			fired[i] = 0
+		}
+		if tryDo(func() { mp.NewEntity(&ct.CP{X: 1}) }) {
+			return t.fail("%s: creating an entity panicked: %v", when, lastPanic)
+		}
+		for i := range fired {
+			want := 1
+			if gone[i] {
+				want = 0
+			}
+			if fired[i] != want {
+				return t.fail("%s: observer %d fired %d times for one created entity, expected %d", when, i, fired[i], want)
+			}
+		}
+		return nil
+	}
+	if v := step("all registered"); v != nil {
+		return t.steps, v
+	}
+	for _, k := range remove {
+		if k < 0 || k >= n || gone[k] {
+			continue
+		}
+		if tryDo(func() { obs[k].Unregister(world) }) {
+			return t.steps, t.fail("unregistering observer %d panicked: %v", k, lastPanic)
+		}
+		gone[k] = true
+		if v := step(fmt.Sprintf("after unregistering observer %d", k)); v != nil {
+			return t.steps, v
+		}
+	}
+	// register them again (they are appended at the end)
+	for _, k := range remove {
+		if k < 0 || k >= n || !gone[k] {
+			continue
+		}
+		if tryDo(func() { obs[k].Register(world) }) {
+			return t.steps, t.fail("registering observer %d again panicked: %v", k, lastPanic)
+		}
+		delete(gone, k)
+	}
+	if v := step("after registering them again"); v != nil {
+		return t.steps, v
+	}
+	if st := world.Stats(); st.Observers != n {
+		return t.steps, t.fail("Stats().Observers=%d, %d are registered", st.Observers, n)
+	}
+	return t.steps, nil
+}
+
+func manyObserversSweep() (int, int, []*drv.Violation) {
+	var fs []func() (int, *drv.Violation)
+	for _, n := range []int{2, 63, 64, 65, 66, 127, 128, 129, 255, 256, 257, 258, 300} {
+		for _, rm := range [][]int{{0}, {n - 1}, {n / 2, 0}, {n - 2, n - 1}, {255, 256}, {256, 0, n - 1}, {257, 64}} {
+			n, rm := n, rm
+			fs = append(fs, func() (int, *drv.Violation) { return manyObserversCase(n, rm) })
+		}
+	}
+	return runCases(fs...)
+}
+
 // ---------------------------------------------------------------- running the sweeps
 
 type thSweep struct {
@@ -618,7 +701,7 @@ func init() {
 	// debugging aid: `check --sub threshold` runs all threshold sweeps of this build once
 	SubModes["threshold"] = func(args []string) *SubResult {
 		r := &SubResult{}
-		for _, sw := range []func() (int, int, []*drv.Violation){wideSweep, manyTargetsSweep, manyArchetypesSweep,
+		for _, sw := range []func() (int, int, []*drv.Violation){wideSweep, manyTargetsSweep, manyArchetypesSweep, manyObserversSweep,
 			func() (int, int, []*drv.Violation) { return runCases(eventTypesCase) }} {
 			c, s, f := sw()
 			r.Cases += c
